@@ -148,6 +148,24 @@ CLAIMED["C15"] = {
     "technique": "Lean 4 theorems (induction over the forwarding loop, TLV codec lemmas) + differential correspondence + independent TLV oracle",
 }
 
+CLAIMED["C12"] = {
+    "text": "Proof. Lean theorems over a host that applies the returned timer actions: every handler - each frame handler, each timer "
+            "handler for the timer that just fired, transmit timestamps - and the pending actions of every BMCA decision re-arm what the "
+            "port's new state waits on (Rearm lemmas); hence, by induction over every host history from a new instance, in every reachable "
+            "state a Listening port has its announce receipt timer armed, a Master port its announce and sync timers, a Slave port its delay "
+            "request timer (reachable_allwait) - no port waits on a timer that was never armed. Progress: the receipt timeout turns any "
+            "non-faulty port of an instance that may be master into a Master with both periodic timers due at once; with no qualified "
+            "master left the decision for a non-listening port is M1/M2, which does the same; a Master's announce / sync timer emits and "
+            "re-arms itself with the configured interval, indefinitely; decision S1 makes the port Slave with receipt and delay timers, and a "
+            "Slave's delay timer emits a (P)delay request and re-arms itself. One genuine finding is recorded (recovery from a peer-delay "
+            "fault arms no timer). Model tied by the timed stream (a simulated host obeying the timers) plus liveness oracles on the "
+            "implementation (silence -> Master and cadence; steady best master -> Slave and delay requests).",
+    "note": "Trusted: Lean kernel; generators; simulated time. The bound 'within a bounded number of announce intervals' is argued from the "
+            "armed-timer invariant + the durations of the timers (receiptTimeout x interval x [1,2)) + C06's window expiry, and is tested by "
+            "the liveness oracle; it is not a single timed theorem.",
+    "technique": "Lean 4 theorems (invariant by induction over host histories of a timer-obeying host, per-handler re-arm lemmas, progress lemmas) + differential correspondence + liveness oracles under simulated time",
+}
+
 CLAIMED["C14"] = {
     "text": "Proof. Lean theorems: a completed peer exchange hands the filter exactly ((t4'-t1)-(t3'-t2))/2 (Spec.peerDelay, `fixed` "
             "division semantics), stamped t4', for every timestamp and correction value; a Pdelay_Resp or follow-up for the current "
